@@ -174,6 +174,13 @@ func manageCanaryPodFailures(pods []*v1.Pod, params *Parameters, result *Result,
 	startCondition := conditions.GetExtendedDaemonSetReplicaSetStatusCondition(result.NewStatus, v1alpha1.ConditionTypeCanary)
 	restartCondition := conditions.GetExtendedDaemonSetReplicaSetStatusCondition(params.NewStatus, v1alpha1.ConditionTypePodRestarting)
 
+	if len(pods) == 0 && result.IsUnpaused && !result.IsFailed {
+		// Unpausing is a manual action and takes precedence: with no canary pod to evaluate,
+		// the per-pod switch below would never apply it and the canary could not resume
+		result.IsPaused = false
+		result.PausedReason = ""
+	}
+
 	// Note that we still need to evaluate restarts regardless of the enabled autoPause or autoFail
 	// since we maintain the restarting condition that can be checked by canary.noRestartsDuration
 	for _, pod := range pods {
